@@ -325,7 +325,7 @@ func runC04(c *core.Ctx) {
 
 	// ---- R6 (shared with C08-R7): the exact-length body reader behind the lazy decoders
 	c.Rule("R6", "exact-length reader counts bytes and maps early EOF correctly (shared with C08-R7)", 1)
-	importObligations(c, runC08, "R6", func(o *core.Obligation) bool { return o.Rule == "R7" })
+	importObligations(c, runC08, "R6", func(o *core.Obligation) bool { return o.Rule == "R7" || o.Rule == "R6" || o.Rule == "R3" })
 
 	// ---- R7 stripping counts from the start of the frame
 	c.Rule("R7", "bytes stripped from a decoded frame are counted from the frame's first byte (the strip runs over the reader that starts with the header, or the count subtracts the header length)", 1)
